@@ -37,7 +37,7 @@ ASSUMPTIONS = [
     "gradient exactness is demanded for linear functions only (as stated); for general multilinear functions adaptive == static is demanded",
 ]
 PROBES = ["dim1", "dim2", "dim3", "point_on_vertex", "point_on_grid_line", "point_on_upper_boundary", "point_on_lower_boundary", "batch_revisits_cell",
-          "warm_batch", "partial_batch", "gradient_query", "linear_function", "shifted_base_point", "negative_indices", "query_buffer_reused_in_place", "external_values_mode", "known_vertices_reassigned", "vector_valued_function", "function_defined_on_box_only", "rejected_query_outside_box", "twin_instance_used_in_between", "long_history", "default_base_point"]
+          "warm_batch", "partial_batch", "gradient_query", "linear_function", "shifted_base_point", "negative_indices", "query_buffer_reused_in_place", "external_values_mode", "known_vertices_reassigned", "vector_valued_function", "function_defined_on_box_only", "rejected_query_outside_box", "twin_instance_used_in_between", "long_history", "default_base_point", "printed_in_between", "resolution_in_narrow_integer_type"]
 
 
 def make_function(ch, d, linear):
@@ -131,7 +131,11 @@ def run_history_c41(ch, tr: Trace) -> None:
     vv = ("_vector_valued" if vdim > 1 else "") + ("_default_base_point" if default_base else "")
     if vdim > 1:
         tr.probe("vector_valued_function")
-    static = pp.InterpolationTable(low, high, npt, f, dim=vdim)
+    # the resolution may come in any integer width (int8 holds up to 127 points per axis, but not their products)
+    npt_dtype = ch.choice([np.int64, np.int64, np.int32, np.int16, np.int8])
+    if npt_dtype is not np.int64:
+        tr.probe("resolution_in_narrow_integer_type")
+    static = pp.InterpolationTable(low, high, npt.astype(npt_dtype), f, dim=vdim)
     f_plain = f
 
     class OutsideBox(Exception):
@@ -375,7 +379,15 @@ def run_history_c41(ch, tr: Trace) -> None:
         tr.op("twin", "ok", x.T.tolist(), changing=False)
         cache_invariants("queries on another adaptive table")
 
-    ops = [Op("interpolate", 5, op_interp, core=True), Op("gradient", 3, op_grad), Op("outside", 1, op_outside, enabled=lambda: guarded), Op("twin_noise", 1, op_twin_noise)]
+    def op_repr():
+        repr(adaptive)
+        str(adaptive)
+        repr(static)
+        tr.probe("printed_in_between")
+        tr.op("repr", "ok", changing=False)
+        cache_invariants("printing the tables")
+
+    ops = [Op("repr", 1, op_repr), Op("interpolate", 5, op_interp, core=True), Op("gradient", 3, op_grad), Op("outside", 1, op_outside, enabled=lambda: guarded), Op("twin_noise", 1, op_twin_noise)]
     if long_run:
         tr.probe("long_history")
     run_history(ch, tr, ops, 3 if not long_run else 40, 16 if not long_run else 120)
